@@ -1,6 +1,6 @@
 (* C10 -- List markers determine list nesting (partial: see MANIFEST level text). *)
 From Rimu Require Import Base Unicode Regex RegexAnalysis RegexParse Str Types Tables Guards State Inline Block
-  Frame FrameBlock FrameInst OptionsLemmas MiscLemmas MoreLemmas Plain TableFacts RegexSem MatchLemmas Placeholder TaintInline NoRaise NoRaiseTop Taint Locality Plain PlainDoc ListDoc.
+  Frame FrameBlock FrameInst OptionsLemmas MiscLemmas MoreLemmas Plain TableFacts RegexSem MatchLemmas Placeholder TaintInline NoRaise NoRaiseTop Taint Locality Plain PlainDoc ListDoc QuoteBlock QuoteList.
 
 (* bulleted, numbered and definition items produce ul/ol/dl with li or dt/dd (the generated list table) *)
 Theorem C10_list_table :
@@ -125,3 +125,11 @@ Proof.
   - intros x Hx. vm_compute in Hx. vm_compute. intuition.
   - eexists _, _. split; [reflexivity|]. split; reflexivity.
 Qed.
+
+(* A LIST INSIDE A CONTAINER: the quote block holding one list item renders to the list inside <blockquote>; the nested render is
+   the document renderer itself, and the list-id stack is empty again afterwards *)
+Theorem C10_list_in_quote_block : forall mk n item s, In mk markers -> quiet_default s -> li_item_ok item ->
+  doc_render (S (S (S (S (S (S (S (S n)))))))) (qfence ++ 10 :: li_line mk item ++ 10 :: qfence) s =
+  Ok ($"<blockquote><ul><li>" ++ escape item ++ $"</li></ul></blockquote>", set_listids (quote_open s) []).
+Proof. exact quote_list_document. Qed.
+Print Assumptions C10_list_in_quote_block.
